@@ -210,18 +210,21 @@ def _rx_class_known():
 
 
 def _rx_sim(case):
-    """tiny replay of the op list (not of the state machine): yields (op, args, fin_seen_before)"""
+    """tiny replay of the op list (not of the state machine): yields (op, args, fin_or_reset_seen_before)"""
     i, ended, out = 1, False, []
     while i < len(case):
-        op = case[i] % 4
+        op = case[i] % 6
         if op == 0 or op == 2:
             out.append((op, case[i + 1:i + 2], ended)); i += 2
             ended = ended or op == 2
         elif op == 1:
             out.append((1, case[i + 1:i + 3], ended)); i += 3
-        else:
+        elif op == 3:
             out.append((3, [], ended)); i += 1
             ended = True
+        else:
+            out.append((op, case[i + 1:i + 3], ended)); i += 3
+            ended = ended or op == 5
     return out
 
 
@@ -245,12 +248,26 @@ def gen_rxwake(rng):
             if ended and not allow_after_fin_lw:
                 pass
             case += [1, low, high]
-        elif r < 0.95:
+        elif r < 0.91:
             case += [2, max(0, rng.choice([0, 1, w // 2, w, rng.randrange(0, w + 2)]))]
             ended = True
-        else:
+        elif r < 0.94:
             case += [3]
             ended = True
+        else:
+            # a segment ahead of a gap (often with FIN), the gap filler follows as ordinary data ops
+            g = rng.choice([1, 1, 2, 3, max(1, w // 4), rng.randrange(1, w + 2)])
+            k = rng.choice([0, 1, 2, w // 2, w, rng.randrange(0, w + 2)])
+            fin = rng.random() < 0.6
+            case += [5 if fin else 4, g, k]
+            ended = ended or fin
+            for _ in range(rng.choice([0, 1, 1, 2])):
+                if rng.random() < 0.5:
+                    low = rng.choice([0, 1, w, 2 * w, rng.randrange(0, 3 * w + 2)])
+                    if ended and not allow_after_fin_lw:
+                        low = 0
+                    case += [1, low, rng.choice([max(low, 1), 1 << 20])]
+                case += [0, rng.choice([1, g - 1 if g > 1 else 1, g, g + 3])]
     return case
 
 
@@ -263,10 +280,16 @@ def fixed_rxwake(tier):
         [16, 1, 0, 5, 0, 1, 1, 0, 5, 3, 1, 0, 100],      # parked, reset arrives: woken
         [1, 1, 5, 5, 0, 1, 1, 0, 1],
         [8192, 1, 8192, 8192, 0, 4095, 0, 1, 0, 4096, 1, 8192, 8192],
+        [100, 0, 3, 1, 20, 20, 5, 2, 5, 0, 2, 1, 0, 100],          # parked; FIN segment first, the gap filler completes the stream: woken
+        [100, 1, 50, 50, 5, 4, 0, 0, 4, 1, 0, 100],                  # parked on an empty buffer; empty FIN at offset 4, then the 4 bytes
+        [100, 1, 30, 30, 4, 5, 5, 0, 2, 0, 3, 1, 0, 100],            # later segment without FIN, gap filled in two pieces
+        [10, 1, 9, 9, 4, 2, 8, 0, 2, 1, 0, 100],                     # the gap filler brings the buffer to the threshold
+        [10, 1, 20, 20, 5, 3, 7, 3, 0, 3, 1, 0, 100],                # reset is not sent after a FIN; the filler completes
+        [10, 1, 20, 20, 4, 3, 7, 3, 1, 0, 100],                      # reset with a segment held
     ]
     if _rx_class_known():
         out.append([100, 2, 10, 1, 20, 20])               # FIN received, low watermark above the rest: parked (known class)
-    alpha = [(0, 1), (0, 3), (0, 7), (1, 0, 4), (1, 4, 4), (1, 9, 9), (2, 0), (2, 2), (3,)]
+    alpha = [(0, 1), (0, 3), (0, 7), (1, 0, 4), (1, 4, 4), (1, 9, 9), (2, 0), (2, 2), (3,), (4, 1, 2), (5, 1, 0), (5, 2, 2)]
     if not _rx_class_known():
         pass
     seqs = _short_sequences(alpha, 3 if tier == "quick" else 5, prefix=(6,))
@@ -300,7 +323,9 @@ def hist_rxwake(cases, outs):
 def _rx_first_complaint(case, out):
     """python replica of RxWake.judge: index and record of the first op the judge rejects (None if none)"""
     w = max(1, min(case[0] if case else 0, 8192))
-    sent = cons = ended = 0
+    A = 1 << 20
+    sent = cons = ended = final = 0
+    ooo = None
     park = None
     last = 0
     recs = [r for r in _records(out, 0, 5)]
@@ -312,12 +337,28 @@ def _rx_first_complaint(case, out):
         woken = last < wk
         park0 = None if woken else park
         bad = False
+        a = [min(x, A) for x in a] + [0, 0]
         if op in (0, 2):
-            n = min(min(a[0] if a else 0, 1 << 20), cons + w - sent)
-            fin = op == 2
-            if ended == 0 and (n > 0 or fin):
+            n = min(a[0], (ooo[0] - sent) if ooo else (cons + w - sent))
+            fin = op == 2 and ooo is None
+            allowed = ended == 0 or (ended == 1 and ooo is not None)
+            if allowed and (n > 0 or fin):
                 sent += n
-                ended = 1 if fin else 0
+                if ooo and sent == ooo[0]:
+                    sent, ooo = ooo[1], None
+                if fin:
+                    ended, final = 1, sent
+            park = park0
+            bad = c != 0 or ww != 0 or wk < last
+        elif op in (4, 5):
+            g, n, fin = a[0], a[1], op == 5
+            start = sent + g
+            if ended == 0 and ooo is None and g >= 1 and start <= cons + w:
+                n = min(n, cons + w - start)
+                if n > 0 or fin:
+                    ooo = (start, start + n)
+                    if fin:
+                        ended, final = 1, start + n
             park = park0
             bad = c != 0 or ww != 0 or wk < last
         elif op == 3:
@@ -326,13 +367,14 @@ def _rx_first_complaint(case, out):
             park = park0
             bad = c != 0 or ww != 0 or wk < last
         else:
-            high = max(min(a[1] if len(a) > 1 else 0, 1 << 20), 1)
-            low = min(min(a[0] if a else 0, 1 << 20), high)
+            high = max(a[1], 1)
+            low = min(a[0], high)
             bad = c < 0 or c > high or c > sent - cons or ww not in (0, 1) or wk < last
             cons += max(c, 0)
             park = (low - c if low > c else 0) if ww == 1 else None
         if not bad and park is not None:
-            bad = ended != 0 or max(1, park) <= sent - cons or sent == cons + w
+            bad = (ended == 2 or (ended == 1 and sent == final) or max(1, park) <= sent - cons
+                   or (ooo is None and sent == cons + w))
         if bad:
             return (k, (op, recs[k]))
         last = wk
